@@ -21,6 +21,8 @@ Ids3_6 == {"a", "b", "c", "d", "e", "f"}
 \* DF = 2, D = 4: a deeper chain a,b / c / d / e
 U4 == ("a" :> <<0, 0, 0, 0>>) @@ ("b" :> <<0, 0, 0, 1>>) @@ ("c" :> <<0, 0, 1, 0>>) @@
       ("d" :> <<0, 1, 0, 0>>) @@ ("e" :> <<1, 0, 0, 0>>)
+Ids4_3 == {"a", "b", "c"}
+Ids4_4 == {"a", "b", "c", "d"}
 Ids4_5 == {"a", "b", "c", "d", "e"}
 
 JustL  == {"L"}
